@@ -475,6 +475,11 @@ func c08Catalog() []c08Entry {
 			if err != nil {
 				g.ctx.Harness("ring: %v", err)
 			}
+			if r.Level() > 0 && g.ch.Chance("ring-level-view", 1, 3) {
+				// a view of the ring at a lower level
+				r = r.AtLevel(g.ch.Draw("ring-view-level", r.Level()))
+				g.ctx.Count("probe.ring-level-view", 1)
+			}
 			return r
 		}),
 		entryOf("polynomial.PowerBasis", func(g *c08Gen) *polynomial.PowerBasis {
